@@ -196,7 +196,7 @@ class MGroup:
 class MTask:
     __slots__ = (
         "name", "gen", "stack", "shield", "foreign", "foreign_at", "state", "wake_at", "outcome", "marks", "group",
-        "last_bare_cp_at", "waiting_on", "finished_at",
+        "last_park_at", "zero_cycle_at", "waiting_on", "finished_at",
     )  # fmt: skip
 
     def __init__(self, name: str) -> None:
@@ -212,7 +212,8 @@ class MTask:
         self.outcome: str | None = None
         self.marks: list[tuple[int, int]] = []
         self.group: MGroup | None = None
-        self.last_bare_cp_at: int | None = None
+        self.last_park_at: int | None = None  # instant of the latest park
+        self.zero_cycle_at: int | None = None  # latest instant in which it was parked and resumed without time advancing
         self.waiting_on: MGroup | None = None
 
     def pending(self) -> bool:
@@ -274,9 +275,9 @@ class _Sim:
             elif state == "ready":
                 res.racy = True
                 res.notes.append(f"{target.name}: cross-task cancellation after its wait completed, before it resumed")
-            elif state == "cp" or target.last_bare_cp_at == self.now:
+            elif state == "cp" or target.zero_cycle_at == self.now:
                 res.racy = True
-                res.notes.append(f"{target.name}: cross-task cancellation while passing a bare checkpoint")
+                res.notes.append(f"{target.name}: cross-task cancellation in an instant in which it passes checkpoints without time advancing")
         if state == "done" or not target.due():
             return
         if state in ("sleep", "groupwait"):
@@ -312,6 +313,10 @@ class _Sim:
 
     def abort(self, grp: MGroup) -> None:
         grp.aborted = True
+        for c in grp.children:
+            if c.state == "done" and c.finished_at == self.now and c.zero_cycle_at == self.now:
+                self.res.racy = True
+                self.res.notes.append(f"{c.name}: finished, after a zero-time checkpoint, in the instant its group is cancelled")
         for c in grp.unfinished():
             self.request_foreign(c, cross_task=True)
 
@@ -322,8 +327,6 @@ class _Sim:
             yield from self.node(task, node, env)
 
     def checkpoint(self, task: MTask, dur: int) -> Iterator[Any]:
-        if dur == 0:
-            task.last_bare_cp_at = self.now
         for s in task.stack:
             if s.cancel_called:
                 s.suspended_while_cancelled = True
@@ -464,6 +467,8 @@ class _Sim:
             return
         if exc is None and task.state == "cp" and task.due():
             exc = _Interrupt()
+        if task.last_park_at == self.now:
+            task.zero_cycle_at = self.now
         task.state = "running"
         self.current = task
         assert task.gen is not None
@@ -474,6 +479,7 @@ class _Sim:
             self.finish(task)
             return
         self.current = None
+        task.last_park_at = self.now
         kind = req[0]
         if kind in ("groupwait", "cleanup"):
             grp: MGroup = req[1]
